@@ -61,7 +61,14 @@ Inductive op :=
 | OpReplace (k : keysrc) (expected : N) (rq : question) (id : N) (ok : bool)
 | OpRemove (neg : bool) (k : keysrc)
   (* an alias entry: the stored answer to q is one CNAME to `target` (wire form), no record of q's type *)
-| OpSetAlias (k : keysrc) (q : question) (cd : bool) (target : bytes) (id : N)
+| OpSetAlias (k : keysrc) (q : question) (cd : bool) (target : bytes) (id : N) (plain : bool)
+  (* a hop of an alias chain whose stored body has / lacks a record of the question's type and is /
+     is not a plain NOERROR body (NXDOMAIN, authority or additional records, a type the composer
+     cannot re-encode) *)
+| OpSetHop (k : keysrc) (q : question) (cd : bool) (id : N) (hasq plain : bool)
+  (* the failure cache's clock advances by dt ms; a subtree cut's lifetime ends *)
+| OpClock (dt : N)
+| OpCutExpire (id : N)
   (* a wire-born request without ECS whose reply may be composed by the cache-contained chase:
      ids of the stored responses whose records make up the reply, in order ([] = miss) *)
 | OpServeChase (w : bytes) (q : question) (cd : bool) (out : list N)
@@ -94,7 +101,8 @@ Inductive op :=
 
 (* the [ecs] policy of a history: forward ceilings (edns clamps the client's source to them) and
    min_scope (ClampScope widens stored scopes to it) per family *)
-Record policy := mk_pol { p_fwd4 : N; p_fwd6 : N; p_min4 : N; p_min6 : N }.
+Record policy := mk_pol { p_fwd4 : N; p_fwd6 : N; p_min4 : N; p_min6 : N;
+                          p_finit : N; p_fmax : N }.   (* failure cache initial / maximal backoff, ms *)
 Definition clamp_client (pol : policy) (client : option scope) : option scope :=
   option_map (fun c => mk_scope (sc_is4 c) (N.min (sc_bits c) (if sc_is4 c then p_fwd4 pol else p_fwd6 pol)) (sc_addr c)) client.
 
@@ -122,26 +130,30 @@ Fixpoint find_entry (id : N) (m : list (KB * entry)) : option entry :=
   | (_, e) :: r => if e_id e =? id then Some e else find_entry id r
   end.
 
-Definition step (pol : policy) (s : cstore) (o : op) : cstore * bool :=
+Definition step (pol : policy) (now : N) (s : cstore) (o : op) : cstore * bool :=
   match o with
   | OpSet neg k q cd p id =>
-      (if neg then set_entry KB bytes_eqb true (key_of k) (mk_entry q cd (normalize_scope p) id None) s
-       else store_set_from_response KB bytes_eqb hid s_fq (key_of k) q cd p id None s, true)
+      (if neg then set_entry KB bytes_eqb true (key_of k) (mk_entry q cd (normalize_scope p) id None true true) s
+       else store_set_from_response KB bytes_eqb hid s_fq (key_of k) q cd p id None true true s, true)
   | OpReplace k expected rq id ok =>
       match find_entry expected (st_pos KB s ++ st_neg KB s) with
       | Some ex =>
-          let '(s', r) := replace_if_current KB bytes_eqb (key_of k) ex rq id None s in
+          let '(s', r) := replace_if_current KB bytes_eqb (key_of k) ex rq id None true true s in
           (s', Bool.eqb r ok)
       | None => (s, negb ok)       (* the expected entry is no longer anywhere: the CAS must fail *)
       end
   | OpRemove neg k => (remove_entry KB bytes_eqb neg (key_of k) s, true)
-  | OpSetAlias k q cd target id =>
-      (store_set_from_response KB bytes_eqb hid s_fq (key_of k) q cd None id (Some target) s, true)
+  | OpSetAlias k q cd target id plain =>
+      (store_set_from_response KB bytes_eqb hid s_fq (key_of k) q cd None id (Some target) false plain s, true)
+  | OpSetHop k q cd id hasq plain =>
+      (store_set_from_response KB bytes_eqb hid s_fq (key_of k) q cd None id None hasq plain s, true)
+  | OpClock _ => (set_failure_clock KB now s, true)
+  | OpCutExpire id => (expire_cut KB id s, true)
   | OpServeChase w q cd out =>
       let ids :=
         match serve_wire_exact KB bytes_eqb hid s w (q_type q) (q_class q) cd with
         | Some e =>
-            match e_alias e with
+            match (if e_has_qtype e then None else e_alias e) with
             | None => [e_id e]
             | Some _ =>
                 match wire_chase KB bytes_eqb hid s (N.to_nat max_wire_chase_hops) w (q_type q) (q_class q) cd e with
@@ -157,11 +169,11 @@ Definition step (pol : policy) (s : cstore) (o : op) : cstore * bool :=
         end in
       (s, bytes_eqb ids out)
   | OpPurge q => (purge KB bytes_eqb hid q s, true)
-  | OpFailQ q cd p id => (record_fquestion KB bytes_eqb hid s_fq q cd p id s, true)
-  | OpFailZ zone qc id => (record_fzone KB bytes_eqb hid s_fz zone qc id s, true)
+  | OpFailQ q cd p id => (record_fquestion KB bytes_eqb hid s_fq now (p_finit pol) (p_fmax pol) q cd p id s, true)
+  | OpFailZ zone qc id => (record_fzone KB bytes_eqb hid s_fz now (p_finit pol) (p_fmax pol) zone qc id s, true)
   | OpCut name qc wire_ok id => (record_cut KB bytes_eqb hid s_cut name qc wire_ok id s, true)
-  | OpFailSeedQ kq kcd kp q cd p id => (seed_fquestion KB bytes_eqb hid s_fq kq kcd kp q cd p id s, true)
-  | OpFailSeedZ kz kc zone qc id => (seed_fzone KB bytes_eqb hid s_fz kz kc zone qc id s, true)
+  | OpFailSeedQ kq kcd kp q cd p id => (seed_fquestion KB bytes_eqb hid s_fq kq kcd kp q cd p id (now + 60000) s, true)
+  | OpFailSeedZ kz kc zone qc id => (seed_fzone KB bytes_eqb hid s_fz kz kc zone qc id (now + 60000) s, true)
   | OpCutForge kn kc id => (forge_cuthash KB bytes_eqb hid s_cut kn kc id s, true)
   | OpServe wb w q cd client out =>
       (s, obs_eqb (obs_of (serve_pipeline KB bytes_eqb hid s_fq s_fz s_cut s wb w q cd (clamp_client pol client))) out)
@@ -172,14 +184,14 @@ Definition step (pol : policy) (s : cstore) (o : op) : cstore * bool :=
        | OMiss =>
            match d with
            | DAnswer bits id => writeback_answer KB bytes_eqb hid s_fq s_fz (p_min4 pol) (p_min6 pol) q cd client' bits id s
-           | DFail id => writeback_failure KB bytes_eqb hid s_fq q cd client' id s
+           | DFail id => writeback_failure KB bytes_eqb hid s_fq now (p_finit pol) (p_fmax pol) q cd client' id s
            end
        | _ => s
        end, obs_eqb (obs_of o) out)
   | OpRefresh k expected rq rcd rscope id ok =>
       match find_entry expected (st_pos KB s ++ st_neg KB s) with
       | Some ex =>
-          let '(s', r) := replace_if_current KB bytes_eqb (key_of k) ex rq id None s in
+          let '(s', r) := replace_if_current KB bytes_eqb (key_of k) ex rq id None true true s in
           (s', Bool.eqb r ok)
       | None => (s, negb ok)
       end
@@ -204,10 +216,12 @@ Definition step (pol : policy) (s : cstore) (o : op) : cstore * bool :=
       (s, on_eqb (option_map c_id (cut_lookup_wire KB bytes_eqb hid s_cut s w qc)) out)
   end.
 
-Fixpoint run (pol : policy) (s : cstore) (ops : list op) : bool :=
+Fixpoint run (pol : policy) (now : N) (s : cstore) (ops : list op) : bool :=
   match ops with
   | [] => true
-  | o :: r => let '(s', ok) := step pol s o in ok && run pol s' r
+  | o :: r =>
+      let now' := match o with OpClock dt => now + dt | _ => now end in
+      let '(s', ok) := step pol now' s o in ok && run pol now' s' r
   end.
 
 Definition pres_of_wire (w : bytes) : option bytes := option_map present (parse_wire w).
@@ -224,7 +238,7 @@ Definition check_case (c : case) : bool :=
   | CaseEq w tests => forallb (fun t => Bool.eqb (wire_equals_pres w (fst t)) (snd t)) tests
   | CaseHash q cd p pre norm =>
       bytes_eqb (cachekey_pre q cd p) pre && oscope_eqb (normalize_scope p) norm
-  | CaseHist pol ops => run pol (empty_store KB) ops
+  | CaseHist pol ops => run pol 0 (empty_store KB) ops
   end.
 
 (* ---- the specification, judged directly on the observations *)
@@ -326,8 +340,12 @@ Definition spec_step (pol : policy) (ss : spec_state) (o : op) : spec_state * bo
         end
       else (ss, true)
   | OpRemove _ _ => (ss, true)
-  | OpSetAlias _ q cd target id =>
+  | OpSetAlias _ q cd target id _ =>
       (mk_ss (mk_ident id q cd None :: ss_ans ss) (ss_fail ss) (ss_cut ss) ((id, target) :: ss_alias ss), true)
+  | OpSetHop _ q cd id _ _ =>
+      (mk_ss (mk_ident id q cd None :: ss_ans ss) (ss_fail ss) (ss_cut ss) (ss_alias ss), true)
+  | OpClock _ => (ss, true)
+  | OpCutExpire _ => (ss, true)
   | OpServeChase w q cd out =>
       (ss, match out with
            | [] => true
@@ -405,7 +423,7 @@ Fixpoint purge_spec (purged : list question) (ops : list op) : bool :=
       let same (q : question) := existsb (fun pq => fold_eqb (q_name pq) (q_name q) && (q_type pq =? q_type q) && (q_class pq =? q_class q)) purged in
       match o with
       | OpPurge q => purge_spec (q :: purged) r
-      | OpSet _ _ q _ _ _ | OpReplace _ _ q _ _ | OpSetAlias _ q _ _ _ | OpRefresh _ _ q _ _ _ _ =>
+      | OpSet _ _ q _ _ _ | OpReplace _ _ q _ _ | OpSetAlias _ q _ _ _ _ | OpSetHop _ q _ _ _ _ | OpRefresh _ _ q _ _ _ _ =>
           purge_spec (filter (fun pq => negb (fold_eqb (q_name pq) (q_name q) && (q_type pq =? q_type q) && (q_class pq =? q_class q))) purged) r
       | OpServe _ _ q _ _ (BHit _) => negb (same q) && purge_spec purged r
       | OpResolve _ _ q _ _ _ (BHit _) => negb (same q) && purge_spec purged r
